@@ -204,6 +204,13 @@ pub struct Rec {
     sample_cap: usize,
 }
 
+/// "got .. expected .." for a mismatch. Formatting the value the library returned is itself a
+/// library call (Debug of a non-canonical Uint panics), so it runs under catch_unwind.
+fn describe<T: std::fmt::Debug>(got: &T, exp: &T) -> String {
+    let g = std::panic::catch_unwind(std::panic::AssertUnwindSafe(|| format!("{got:?}"))).unwrap_or_else(|_| "<a value whose Debug formatting panics>".to_string());
+    format!("got {g} expected {exp:?}")
+}
+
 impl Rec {
     pub fn new(rule: &'static str, bits: usize, known: Arc<Vec<Known>>, strict: bool) -> Self {
         Rec {
@@ -289,7 +296,7 @@ impl Rec {
         if got == exp {
             Ok(())
         } else {
-            self.fail(check, "value_wrong", format!("got {got:?} expected {exp:?}"))
+            self.fail(check, "value_wrong", describe(got, exp))
         }
     }
     pub fn eqc<T: PartialEq + std::fmt::Debug>(&mut self, check: &str, class: &str, got: &T, exp: &T) -> R {
@@ -297,7 +304,7 @@ impl Rec {
         if got == exp {
             Ok(())
         } else {
-            self.fail(check, class, format!("got {got:?} expected {exp:?}"))
+            self.fail(check, class, describe(got, exp))
         }
     }
     pub fn ensure(&mut self, check: &str, class: &str, cond: bool, msg: impl FnOnce() -> String) -> R {
